@@ -118,7 +118,8 @@ class DOMParser:
         context = ParseContext(self, options, False)
 
         for d in itertools.chain([dom_], dom_.iterdescendants()):
-            if d.text and d.tag.lower() != "lxmltext":
+            # comments and processing instructions have no string tag and no content
+            if isinstance(d.tag, str) and d.text and d.tag.lower() != "lxmltext":
                 child = lxml.html.Element("lxmltext")
                 child.text = d.text
                 d.insert(0, child)
@@ -575,6 +576,7 @@ class ParseContext:
                         node_before is None
                         or (
                             dom_node_before is not None
+                            and isinstance(dom_node_before.tag, str)
                             and dom_node_before.tag.upper() == "BR"
                         )
                         or (
